@@ -243,7 +243,7 @@ def run(run):
         items.append(("KwikSortRandom", lvs, sweep.NAMINGS[3][i % 3], True, ["history", i % 3]))
     run.bounds["history scenario (aggregate, remove one element in place, aggregate again with the same object)"] = len(hist)
     run.pmap("item", item, items, chunksize=2)
-    symb = [(2, 2), (3, 1), (3, 2)] + ([(2, 3), (3, 3)] if run.thorough else [])
+    symb = [(2, 2), (3, 1), (3, 2)] + ([(2, 3), (2, 4)] if run.thorough else [])
     run.bounds["KwikSort on symbolic datasets [S over datasets and schemes, P over pivots] (n, m)"] = symb
     run.pmap("sym_kwik", sym_kwik, symb)
     run.extra["work_items"] = len(items)
